@@ -117,6 +117,10 @@ pub struct StreamCase {
     /// short description of the program shape (for distinct-case signatures)
     pub shape: String,
     pub source: String,
+    /// the program has VarDCT frames (stage-2 generator: self-consistency only; violation classes
+    /// carry a `+vardct` suffix so that VarDCT-specific findings do not mask Modular ones)
+    #[serde(default)]
+    pub has_vardct: bool,
     /// the generating program (for triage only; replay uses `bytes`)
     #[serde(default)]
     pub program: Option<serde_json::Value>,
@@ -136,6 +140,9 @@ pub fn program_shape(p: &crate::jxlgen::Program) -> String {
     let mut flags = std::collections::BTreeSet::new();
     if p.preview.is_some() {
         flags.insert("preview");
+    }
+    if p.frames.iter().any(|f| f.vardct.is_some()) {
+        flags.insert("vardct");
     }
     for f in &p.frames {
         let (cw, ch) = p.color_sample_dims(f);
@@ -189,7 +196,7 @@ pub fn valid_stream(rng: &mut Rng, cfg: &GenConfig, fixture_one_in: u64, contain
             // JXL(12) ftyp(20) jxll(9) jxlc-to-EOF header at 41..49
             let structural = vec![12, 32, 41, 49, 51, bytes.len() / 2, bytes.len()];
             let headers = (12..60).collect();
-            return StreamCase { bytes, structural, headers, container: true, aux_after_codestream: false, brob_after_codestream: false, shape: "fixture".into(), source: "cmyk_layers.jxl".into(), program: None };
+            return StreamCase { bytes, structural, headers, container: true, aux_after_codestream: false, brob_after_codestream: false, shape: "fixture".into(), source: "cmyk_layers.jxl".into(), has_vardct: false, program: None };
         }
     }
     let prog = random_program(rng, cfg);
@@ -197,7 +204,7 @@ pub fn valid_stream(rng: &mut Rng, cfg: &GenConfig, fixture_one_in: u64, contain
     let (cs, map) = prog.encode().expect("encode");
     let cs_struct = map.structural_offsets();
     if rng.below(100) >= container_pct {
-        return StreamCase { bytes: cs, structural: cs_struct, headers: vec![], container: false, aux_after_codestream: false, brob_after_codestream: false, shape, source: "jxlgen".into(), program: serde_json::to_value(&prog).ok() };
+        return StreamCase { bytes: cs, structural: cs_struct, headers: vec![], container: false, aux_after_codestream: false, brob_after_codestream: false, shape, source: "jxlgen".into(), has_vardct: prog.frames.iter().any(|f| f.vardct.is_some()), program: serde_json::to_value(&prog).ok() };
     }
     let spec = random_container(rng, &cs, &cs_struct);
     let (bytes, bmap) = spec.encode(rng.next_u64());
@@ -249,6 +256,7 @@ pub fn valid_stream(rng: &mut Rng, cfg: &GenConfig, fixture_one_in: u64, contain
         aux_after_codestream: aux_after,
         shape: format!("{shape}-box{}", spec.boxes.len()),
         source: "jxlgen+container".into(),
+        has_vardct: prog.frames.iter().any(|f| f.vardct.is_some()),
         program: serde_json::to_value(&prog).ok(),
     }
 }
